@@ -49,6 +49,8 @@ def run(prog: Program, rep: Report, tier: str):
     rule_perm(prog, rep)
     rule_spline(prog, rep)
     rule_bin(prog, rep, "C07.bin")
+    from .lints import rule_stable_bijections
+    rule_stable_bijections(prog, rep, "C07.stable")
     if tier == "thorough":
         from ..audit import audit_generic
         audit_generic(prog, rep, "C07")
